@@ -426,39 +426,27 @@ func schemaEncRule(c *Ctx, rule string) {
 		okEnc := false
 		why := "no gob Encode of the writer's schema whose buffer is stored under the schema key"
 		for _, fn := range c.scope(anchor, 2) {
-			fn := fn
 			allInstrs(fn, func(i ssa.Instruction) {
-				call, ok := i.(*ssa.Call)
-				if !ok || calleeName(&call.Call) != "(*encoding/gob.Encoder).Encode" {
+				put, ok := i.(*ssa.Call)
+				if !ok || calleeName(&put.Call) != boltPut || keyKind(c, put.Call.Args[1]) != "schema" {
 					return
 				}
-				arg := call.Call.Args[1]
-				if mi, ok := arg.(*ssa.MakeInterface); ok {
-					arg = mi.X
+				vals := gobEncoded(c, put.Call.Args[2], 0)
+				if len(vals) == 0 {
+					return
 				}
-				f := path(arg).lastField()
-				if f == nil || namedOf(f.Type()) != schemaT || c.w.ownerOf(f) != namedOf(anchor.Signature.Recv().Type()) {
+				all := true
+				for _, v := range vals {
+					f := path(v).lastField()
+					if f == nil || namedOf(f.Type()) != schemaT || c.w.ownerOf(f) != namedOf(anchor.Signature.Recv().Type()) {
+						all = false
+					}
+				}
+				if all {
+					okEnc = true
+				} else {
 					why = "what is gob-encoded is not the writer's own schema field"
-					return
 				}
-				// encoder writes into a bytes.Buffer whose Bytes() go to Put(keySchema, …)
-				enc, ok := call.Call.Args[0].(*ssa.Call)
-				if !ok || calleeName(&enc.Call) != "encoding/gob.NewEncoder" {
-					return
-				}
-				var buf ssa.Value
-				if mi, ok := enc.Call.Args[0].(*ssa.MakeInterface); ok {
-					buf = mi.X
-				}
-				allInstrs(fn, func(j ssa.Instruction) {
-					put, ok := j.(*ssa.Call)
-					if !ok || calleeName(&put.Call) != boltPut || keyKind(c, put.Call.Args[1]) != "schema" {
-						return
-					}
-					if bc, ok := put.Call.Args[2].(*ssa.Call); ok && calleeName(&bc.Call) == "(*bytes.Buffer).Bytes" && bc.Call.Args[0] == buf {
-						okEnc = true
-					}
-				})
 			})
 		}
 		c.r.check(okEnc, rule, name, "gob(schema field) stored under the schema key", "the schema key does not receive the gob encoding of the writer's schema: "+why, c.w.pos(anchor.Pos()))
@@ -466,6 +454,42 @@ func schemaEncRule(c *Ctx, rule string) {
 	// reader
 	okDec := false
 	re := openReach(c)
+	var isSchemaItem func(v ssa.Value, depth int) bool
+	isSchemaItem = func(v ssa.Value, depth int) bool {
+		for n := 0; n < 6; n++ {
+			switch x := v.(type) {
+			case *ssa.MakeInterface:
+				v = x.X
+				continue
+			case *ssa.Call:
+				if calleeName(&x.Call) == "bytes.NewReader" || calleeName(&x.Call) == "bytes.NewBuffer" {
+					v = x.Call.Args[0]
+					continue
+				}
+				return calleeName(&x.Call) == "(*go.etcd.io/bbolt.Bucket).Get" && keyKind(c, x.Call.Args[1]) == "schema"
+			case *ssa.Parameter:
+				// a decoding helper: every caller passes the schema item
+				if depth > 2 {
+					return false
+				}
+				h := x.Parent()
+				n, all := 0, true
+				for _, g := range c.w.ModFuncs {
+					allInstrs(g, func(j ssa.Instruction) {
+						if call, ok := j.(*ssa.Call); ok && calleeFunc(&call.Call) == h {
+							n++
+							if a := argFor(call, h, x); a == nil || !isSchemaItem(a, depth+1) {
+								all = false
+							}
+						}
+					})
+				}
+				return n > 0 && all
+			}
+			break
+		}
+		return false
+	}
 	for _, fn := range re.sorted() {
 		allInstrs(fn, func(i ssa.Instruction) {
 			call, ok := i.(*ssa.Call)
@@ -484,26 +508,64 @@ func schemaEncRule(c *Ctx, rule string) {
 			if !ok {
 				return
 			}
-			src := dec.Call.Args[0]
-			for n := 0; n < 6; n++ {
-				switch x := src.(type) {
-				case *ssa.MakeInterface:
-					src = x.X
-					continue
-				case *ssa.Call:
-					if calleeName(&x.Call) == "bytes.NewReader" || calleeName(&x.Call) == "bytes.NewBuffer" {
-						src = x.Call.Args[0]
-						continue
-					}
-					if calleeName(&x.Call) == "(*go.etcd.io/bbolt.Bucket).Get" && keyKind(c, x.Call.Args[1]) == "schema" {
-						okDec = true
-					}
-				}
-				break
+			if isSchemaItem(dec.Call.Args[0], 0) {
+				okDec = true
 			}
 		})
 	}
 	c.r.check(okDec, rule, "open", "the schema key is gob-decoded into the schema type", "the open function does not decode the schema key's item into the schema type", c.w.pos(c.a.OpenFromDB.Pos()))
+}
+
+// gobEncoded: buf holds the gob encoding of which value(s)? Recognises (*bytes.Buffer).Bytes() of a buffer that a gob
+// encoder in the same function writes to, and a module helper all of whose non-nil returns are such encodings (a
+// parameter of the helper is replaced by the call's argument).
+func gobEncoded(c *Ctx, buf ssa.Value, depth int) []ssa.Value {
+	if depth > 2 {
+		return nil
+	}
+	if bc, ok := buf.(*ssa.Call); ok && calleeName(&bc.Call) == "(*bytes.Buffer).Bytes" {
+		var out []ssa.Value
+		allInstrs(bc.Parent(), func(i ssa.Instruction) {
+			call, ok := i.(*ssa.Call)
+			if !ok || calleeName(&call.Call) != "(*encoding/gob.Encoder).Encode" {
+				return
+			}
+			enc, ok := call.Call.Args[0].(*ssa.Call)
+			if !ok || calleeName(&enc.Call) != "encoding/gob.NewEncoder" {
+				return
+			}
+			if mi, ok := enc.Call.Args[0].(*ssa.MakeInterface); !ok || mi.X != bc.Call.Args[0] {
+				return
+			}
+			arg := call.Call.Args[1]
+			if mi, ok := arg.(*ssa.MakeInterface); ok {
+				arg = mi.X
+			}
+			out = append(out, arg)
+		})
+		return out
+	}
+	if call, callee, vals, ok := resultOrigins(c.w, buf); ok {
+		var out []ssa.Value
+		for _, rv := range vals {
+			if isNilConst(rv) {
+				continue
+			}
+			inner := gobEncoded(c, rv, depth+1)
+			if len(inner) == 0 {
+				return nil
+			}
+			for _, v := range inner {
+				if a := argFor(call, callee, v); a != nil {
+					out = append(out, a)
+				} else {
+					out = append(out, v)
+				}
+			}
+		}
+		return out
+	}
+	return nil
 }
 
 // rowCountRule: the counter persisted under the row-counter key is the writer's own counter field.
@@ -511,33 +573,25 @@ func rowCountRule(c *Ctx, rule string) {
 	for _, anchor := range []*ssa.Function{c.a.MemWrite, c.a.BigFlush} {
 		name := safeFname(anchor)
 		ok := false
-		why := "no PutUint32 of the writer's row counter whose buffer is stored under the row-counter key"
+		why := "no 32-bit encoding of the writer's row counter is stored under the row-counter key"
 		for _, fn := range c.scope(anchor, 2) {
-			fn := fn
 			allInstrs(fn, func(i ssa.Instruction) {
-				call, isCall := i.(*ssa.Call)
-				if !isCall || !strings.HasSuffix(calleeName(&call.Call), "PutUint32") {
+				put, isPut := i.(*ssa.Call)
+				if !isPut || calleeName(&put.Call) != boltPut || keyKind(c, put.Call.Args[1]) != "rows" {
 					return
 				}
-				val := call.Call.Args[len(call.Call.Args)-1]
-				buf := call.Call.Args[len(call.Call.Args)-2]
-				arr := sliceArray(buf)
-				// is this buffer the value of the row-counter put?
-				isCounterBuf := false
-				allInstrs(fn, func(j ssa.Instruction) {
-					put, isPut := j.(*ssa.Call)
-					if !isPut || calleeName(&put.Call) != boltPut || keyKind(c, put.Call.Args[1]) != "rows" {
-						return
-					}
-					if sliceArray(put.Call.Args[2]) == arr && arr != nil {
-						isCounterBuf = true
-					}
-				})
-				if !isCounterBuf {
+				vals := encodedUint32(c, put.Call.Args[2], 0)
+				if len(vals) == 0 {
 					return
 				}
-				f := srcField(val)
-				if f != nil && f.Name() == "nextRowID" && c.w.ownerOf(f) == namedOf(anchor.Signature.Recv().Type()) {
+				all := true
+				for _, val := range vals {
+					f := srcField(val)
+					if f == nil || f.Name() != "nextRowID" || c.w.ownerOf(f) != namedOf(anchor.Signature.Recv().Type()) {
+						all = false
+					}
+				}
+				if all {
 					ok = true
 				} else {
 					why = "the value stored as row counter is not the writer's own row counter field (which counts every AddRow call, including rows without columns)"
@@ -546,6 +600,56 @@ func rowCountRule(c *Ctx, rule string) {
 		}
 		c.r.check(ok, rule, name, "row counter key <- writer's counter field", "the persisted row counter is wrong: "+why, c.w.pos(anchor.Pos()))
 	}
+}
+
+// encodedUint32: buf holds the 32-bit encoding of which value(s)? Recognises PutUint32(arr[:], v) on the array buf is
+// sliced from, AppendUint32(empty, v), and a module helper all of whose returns are such encodings of one of its
+// parameters (the parameter is replaced by the call's argument).
+func encodedUint32(c *Ctx, buf ssa.Value, depth int) []ssa.Value {
+	if depth > 2 {
+		return nil
+	}
+	if arr := sliceArray(buf); arr != nil {
+		var out []ssa.Value
+		fn := buf.(*ssa.Slice).Parent()
+		allInstrs(fn, func(i ssa.Instruction) {
+			call, ok := i.(*ssa.Call)
+			if !ok || !strings.HasSuffix(calleeName(&call.Call), "PutUint32") || !strings.HasPrefix(calleeName(&call.Call), "(encoding/binary.") {
+				return
+			}
+			if sliceArray(call.Call.Args[len(call.Call.Args)-2]) == arr {
+				out = append(out, call.Call.Args[len(call.Call.Args)-1])
+			}
+		})
+		return out
+	}
+	if call, ok := peel(buf).(*ssa.Call); ok {
+		n := calleeName(&call.Call)
+		if strings.HasPrefix(n, "(encoding/binary.") && strings.HasSuffix(n, "AppendUint32") && emptyBytes(call.Call.Args[len(call.Call.Args)-2]) {
+			return []ssa.Value{call.Call.Args[len(call.Call.Args)-1]}
+		}
+	}
+	if call, callee, vals, ok := resultOrigins(c.w, buf); ok {
+		var out []ssa.Value
+		for _, rv := range vals {
+			if isNilConst(rv) {
+				continue
+			}
+			inner := encodedUint32(c, rv, depth+1)
+			if len(inner) == 0 {
+				return nil
+			}
+			for _, v := range inner {
+				if a := argFor(call, callee, peelConv(v)); a != nil {
+					out = append(out, a)
+				} else {
+					out = append(out, v)
+				}
+			}
+		}
+		return out
+	}
+	return nil
 }
 
 // sliceArray: the array a slice expression `a[:]`, `a[i:j]` is taken from.
